@@ -498,7 +498,9 @@ def xyz_reader(reader_class: ReadAndProcessOnTheFly) -> List[np.ndarray]:
         if i % block_size > 1:
             # if there aren't enough values to iterate through
             # return the (possibly empty) ready trajectory frames
-            if len(spl) != 4:
+            # the last line on disk may be cut anywhere: a complete atom
+            # line has four fields AND its newline
+            if len(spl) != 4 or line[-1] != "\n":
                 return trajectory
             else:
                 frame_coordinates.append([float(spl[i]) for i in range(1, 4)])
